@@ -24,7 +24,8 @@ RULE = ("exhaustive matrix: identifiers {_, __, k, v, self, it, itertools, impor
         "name / attribute / subscript, slice store, global store, nonlocal store, zero-arg super, method call, lambda, "
         "return in loop} x 8 option combinations; plus seeded generated programs alpha-renamed with an injective map "
         "into the risky set; plus every conversion's temporaries checked for distinctness/disjointness under fixed and "
-        "re-seeded `random` states. Distinct by (identifier, role, feature, options); non-trivial: all in-domain cells.")
+        "re-seeded `random` states. Distinct by (identifier, role, feature, options); non-trivial: all in-domain cells."
+        ' Identifiers include super, builtins, getattr, dict, operator; feature super0-object observes the object a zero-argument super() call gives.')
 ASSUMPTIONS = ["a cell whose *original* raises (e.g. the user shadows a builtin that the snippet itself calls) is out of domain",
                "if a refactoring removes the fresh-name function, part (b) is reported as not observed; part (a) still decides"]
 EXHAUSTIVE = {"quick": True, "thorough": True}
